@@ -246,6 +246,32 @@ def t_literal_pair(facts, res, tier):
     # the increment is by one
     if not (inc["r"].get("k") == "lit" and inc["r"].get("v") == 1):
         res.fail("T-LITERAL-PAIR:counter", facts.where(fn, inc), "the literal counter does not advance by exactly one per literal")
+    # who may write: the table and its counter are two views of one number - every writer of one, anywhere in the crate, is in one block with
+    # a writer of the other
+    def blocks_writing(pred):
+        out = []
+        for f in facts.fns:
+            if f.get("test"):
+                continue
+            for b in walk(f["body"]):
+                if b.get("k") == "block":
+                    for st in b.get("stmts") or []:
+                        e = st
+                        while isinstance(e, dict) and e.get("k") in ("try", "paren"):
+                            e = e["e"]
+                        if isinstance(e, dict) and pred(e):
+                            out.append((f, b, e))
+        return out
+    is_push = lambda e: e.get("k") == "mcall" and e["method"] in ("push", "insert", "extend", "append", "clear", "pop", "remove", "truncate") and norm(e["recv"]).endswith(".literal_strings")
+    is_inc = lambda e: e.get("k") in ("assignop", "assign") and norm(e["l"]).endswith(".literal_strings_number")
+    pushes, incs = blocks_writing(is_push), blocks_writing(is_inc)
+    res.inst("T-LITERAL-PAIR:writers", True, {"table_writers": len(pushes), "counter_writers": len(incs)})
+    for f, b, e in pushes:
+        if not any(b2 is b for _, b2, _ in incs):
+            res.fail("T-LITERAL-PAIR:writers:%s" % f["name"], facts.where(f, e), "%s changes the literal table without advancing the literal counter in the same block: the next literal of the source is numbered like this entry, and every later `@n@` denotes the entry before its own" % f["name"])
+    for f, b, e in incs:
+        if not any(b2 is b for _, b2, _ in pushes):
+            res.fail("T-LITERAL-PAIR:writers:%s" % f["name"], facts.where(f, e), "%s advances the literal counter without extending the literal table in the same block" % f["name"])
 
 
 # ----------------------------------------------------------------------------- C11
